@@ -364,7 +364,15 @@ func runCase(t *rapid.T, c caseT) {
 			cancelRun()
 		}
 		tag := fmt.Sprintf("m%d", i)
-		m := message.NewMessage("uuid-"+tag, []byte("payload-"+tag))
+		// UUIDs are the producers' business: several messages in flight may share one, or have none
+		uuid := "uuid-" + tag
+		switch (i + len(c.Msgs)) % 4 {
+		case 1:
+			uuid = ""
+		case 2, 3:
+			uuid = "same-uuid"
+		}
+		m := message.NewMessage(uuid, []byte("payload-"+tag))
 		m.Metadata.Set("tag", tag)
 		d := &lib.Delivery{Msg: m, Tag: tag}
 		var cancel context.CancelFunc
